@@ -10,6 +10,7 @@
 (*                                     activation the fields of the mapping it returned       *)
 (*   Expire []                         the activation TTL has elapsed (logged only once the   *)
 (*                                     wall clock is past the deadline and the keys are gone) *)
+(*   Tick   []                         time passed, less than the code's remaining lifetime    *)
 (*   Fault  [at]                       a storage write was made to fail (at = step label)     *)
 (*   Final  [maps, code]               quiescent store: every port-mapping record             *)
 (*                                     [id, listen, tclient, taddr] and the code record       *)
@@ -79,6 +80,10 @@ TrExpire == /\ Is("Expire")
             /\ expLine' = IF expLine = 0 THEN l ELSE expLine
             /\ l' = l + 1 /\ UNCHANGED <<viol, code, calls, succ, revRet, faults>>
 
+\* time passed, but less than the code can still be activated: changes nothing the property talks about
+TrTick == /\ Is("Tick")
+          /\ l' = l + 1 /\ UNCHANGED <<viol, code, calls, succ, revRet, expLine, faults>>
+
 TrFault == /\ Is("Fault")
            /\ faults' = Append(faults, Ev.at)
            /\ l' = l + 1 /\ UNCHANGED <<viol, code, calls, succ, revRet, expLine>>
@@ -104,6 +109,6 @@ TrFinal == /\ Is("Final")
 TrEnd == /\ Is("End") /\ EmitVerdict
          /\ l' = l + 1 /\ viol' = {} /\ code' = Code0 /\ calls' = <<>> /\ succ' = {} /\ revRet' = 0 /\ expLine' = 0 /\ faults' = <<>>
 
-Next == TrCode \/ TrCall \/ TrRet \/ TrExpire \/ TrFault \/ TrFinal \/ TrEnd
+Next == TrCode \/ TrCall \/ TrRet \/ TrExpire \/ TrTick \/ TrFault \/ TrFinal \/ TrEnd
 Spec == Init /\ [][Next]_vars
 =============================================================================
